@@ -408,6 +408,38 @@ def structure_ops(ctx, n):
             ctx.disagree("C19:expand_dims", desc, (pos, [nf + 1 + c for c in cov]), r[1:3] if r[0] != "ok" else (r[1].array.shape, sorted(r[1]._covariant_indices)), replay=[desc])
 
 
+def tensor_product_stream(ctx, n):
+    """tensor_product of two tensors with arbitrary covariant / contravariant index positions (also a contravariant axis stored in
+    front of a covariant one): the entries are the outer product, the covariant axes of both factors come first (left factor first),
+    then the contravariant ones, and the index types say so"""
+    from geometer.base import Tensor
+    rng = ctx.rng
+    for k in range(n):
+        def rt():
+            rank = rng.randint(1, 3)
+            shape = [rng.choice([2, 3, 4]) for _ in range(rank)]
+            cov = sorted(rng.sample(range(rank), rng.randint(0, rank)))
+            arr = np.array([rng.randint(-4, 4) for _ in range(int(np.prod(shape)))]).reshape(shape)
+            return arr, cov
+        (A, ca), (B, cb) = rt(), rt()
+        if k % 4 == 0:
+            ca = list(range(A.ndim))                    # a left factor without contravariant index
+            cb = [B.ndim - 1] if B.ndim > 1 else cb     # ... and a right factor whose contravariant axis comes first
+        na = A.ndim
+        order = ca + [na + c for c in cb] + [i for i in range(na) if i not in ca] + [na + i for i in range(B.ndim) if i not in cb]
+        exp = np.multiply.outer(A, B).transpose(order)
+        ncov = len(ca) + len(cb)
+        desc = f"tensor_product shapes {A.shape} x {B.shape} covariant {ca} x {cb} entries {A.ravel().tolist()} x {B.ravel().tolist()}"
+        ctx.case(desc)
+        ctx.count("tensor_product")
+        r = call_impl(lambda: Tensor(A, covariant=ca).tensor_product(Tensor(B, covariant=cb)))
+        good = r[0] == "ok" and r[1].array.shape == exp.shape and np.array_equal(r[1].array, exp) and sorted(r[1]._covariant_indices) == list(range(ncov)) \
+            and sorted(r[1]._contravariant_indices) == list(range(ncov, exp.ndim))
+        if not good:
+            ctx.disagree("C19:tensor_product", desc, (exp.shape, list(range(ncov))),
+                         r[1:3] if r[0] != "ok" else (r[1].array.shape, sorted(r[1]._covariant_indices), bool(r[1].array.shape == exp.shape and np.array_equal(r[1].array, exp))), replay=[desc])
+
+
 def transformation_transpose(ctx, n):
     """`.T` / `transpose()` of transformation objects are the transposed tensors (the attribute must not be shadowed)"""
     import geometer as g
@@ -429,6 +461,7 @@ def transformation_transpose(ctx, n):
 
 
 def correspondence(ctx):
+    tensor_product_stream(ctx, ctx.budget(120, 1200))
     transformation_transpose(ctx, ctx.budget(20, 100))
     tensor_arith(ctx, ctx.budget(400, 6000))
     point_arith(ctx, ctx.budget(400, 6000))
